@@ -31,6 +31,9 @@ pub enum AddKind {
     Small(u32),
     /// a delta measured in bucket widths (w) plus nanoseconds
     Widths(u16, u16),
+    /// a timestamp beyond 2^64 ns (about 585 years, "never"-style events). Such events are always cancelled by the
+    /// interpreter before it drains the queue (walking the calendar that far is a matter of cost, not semantics).
+    Huge(u8),
 }
 
 #[derive(Clone, Debug, Serialize, Deserialize, PartialEq)]
@@ -85,6 +88,7 @@ pub fn add_kind_strategy() -> impl Strategy<Value = AddKind> {
         1 => (0u32..200_000).prop_map(AddKind::Outlier),
         3 => (0u32..5_000).prop_map(AddKind::Small),
         3 => (0u16..40, 0u16..4).prop_map(|(w, d)| AddKind::Widths(w, d)),
+        1 => (0u8..8).prop_map(AddKind::Huge),
     ]
 }
 
@@ -300,6 +304,7 @@ pub struct Flags {
     pub year_cross: bool,
     pub zero_add_after_fetch: bool,
     pub outlier: bool,
+    pub huge: bool,
     pub cancel_fetched: bool,
     pub tie_groups: u32,
     pub tie_zero_and_older: bool,
@@ -329,6 +334,8 @@ struct Pending {
     /// was inserted through the zero bucket path (time == current at insertion)
     zero: bool,
 }
+
+const HUGE: u128 = 1u128 << 64;
 
 fn dur(ns: u128) -> Duration {
     Duration::new((ns / 1_000_000_000) as u64, (ns % 1_000_000_000) as u32)
@@ -541,7 +548,12 @@ pub fn interpret<E: Payload>(params: &QParams, ops: &[Op], opt: &Options) -> Res
             if pending.is_empty() {
                 break;
             }
-            Op::Fetch
+            if let Some(pos) = pending.iter().position(|p| p.time >= HUGE) {
+                // far-future events are cancelled, not waited for
+                Op::Cancel(((pos * 65536 + 65535) / pending.len()).min(65535) as u16)
+            } else {
+                Op::Fetch
+            }
         };
         match op {
             Op::Add(kind) => {
@@ -577,6 +589,20 @@ pub fn interpret<E: Payload>(params: &QParams, ops: &[Op], opt: &Options) -> Res
                     }
                     AddKind::Small(d) => cur + d as u128,
                     AddKind::Widths(w, d) => cur + t * w as u128 + d as u128,
+                    AddKind::Huge(k) => {
+                        flags.huge = true;
+                        let base = 1u128 << 64;
+                        match k % 8 {
+                            0 => base,
+                            1 => base + 1,
+                            2 => base + t,
+                            3 => base + year - 1,
+                            4 => base + 12_345_678_901 + next_id as u128,
+                            5 => base * 3 + year * 7 + 5,
+                            6 => (u64::MAX as u128) * 1_000_000_000 + 999_999_999,
+                            _ => base + t * (next_id as u128 % 97) + 13,
+                        }
+                    }
                 };
                 let id = next_id;
                 next_id += 1;
@@ -658,7 +684,8 @@ pub fn interpret<E: Payload>(params: &QParams, ops: &[Op], opt: &Options) -> Res
                 q.cancel(h);
             }
             Op::FetchRefused => {
-                if pending.is_empty() {
+                if pending.is_empty() || pending.iter().all(|p| p.time >= HUGE) {
+                    // (locating a "never"-style event would walk the calendar for centuries)
                     continue;
                 }
                 flags.refused += 1;
@@ -684,6 +711,10 @@ pub fn interpret<E: Payload>(params: &QParams, ops: &[Op], opt: &Options) -> Res
             Op::Fetch => {
                 if pending.is_empty() {
                     vensure!(q.is_empty(), "len-mismatch", "model is empty but queue reports len {}", q.len());
+                    continue;
+                }
+                if pending.iter().all(|p| p.time >= HUGE) {
+                    // only "never"-style events are left: fetching would walk the calendar for centuries
                     continue;
                 }
                 vensure!(!q.is_empty(), "len-mismatch", "model has {} pending but queue is empty", pending.len());
